@@ -111,6 +111,15 @@ CLAIMED = {
         design="§4 C03", technique="Coq invariant-by-induction over an automaton whose write sets are translated from the source + exhaustive bounded history exploration of the implementation",
         note="the invariance table and 'a written attribute is written with the right rule' are modelled (rules partly proved: ScalingThm, MeshThm translation lemmas); "
              "implementation explored to bounded depth; tolerance 1e-8 relative to each array's magnitude."),
+    "C16": dict(
+        text="Translator tie: the transitive write set of EVERY property getter and query method of every shape class is regenerated from the source each run "
+             "(Gen/Effects.v); theorems by vm_compute: all queries write nothing except the private memo attributes and, for the listed move-and-restore "
+             "queries (Polygon.inertia_tensor, to_hoomd), exactly the geometry they restore; no method writes in place into an argument array, also not "
+             "through np.asarray/atleast_2d aliases. Implementation side: every ordered pair of ~25-45 queries per class (reflection + exports) on fresh "
+             "off-origin shapes: private state bit-for-bit (1e-12 for move-and-restore), argument arrays and previously handed-out arrays bit-for-bit, "
+             "repeated query same answer.",
+        design="§4 C16", technique="source-to-Coq translation of write sets + Coq table theorems (vm_compute) + exhaustive pairwise exploration of the implementation",
+        note="that a move-and-restore query restores exactly, and aliasing of handed-out arrays, are outside the write-set abstraction and decided by the exploration."),
 }
 
 REASON_TODO = "check not built yet (work in progress this round)"
